@@ -20,6 +20,21 @@ def _drows(d, D):
     return sorted(rows, key=lambda r: r["k"])
 
 
+_HELD = {}      # results returned for the previous algebra case, kept alive: later calls must not change them
+
+
+def _dig(obj):
+    """fingerprint of a (possibly nested) result of the algebra helpers"""
+    if isinstance(obj, dict):
+        return sorted((str(k), _dig(v)) for k, v in obj.items())
+    if isinstance(obj, (list, tuple)):
+        return [_dig(v) for v in obj]
+    try:
+        return float(obj).hex()
+    except Exception:
+        return str(obj)
+
+
 def run_algebra(case):
     import gcmpy
     from gcmpy.tools.joint_excess_from_jdd import JointExcessfromJDD
@@ -32,7 +47,8 @@ def run_algebra(case):
     raw = case.get("scale") == "raw"          # un-normalised weights: excess distributions and the inversion are scale invariant
     jdd = {k: (float(w) if raw else w / W) for k, w in P.items()}
     tr = {"kind": "algebra", "case": case, "check_mean": not raw, "P": [{"k": list(k), "w": w} for k, w in P.items()], "names": names, "raised": "",
-          "excess": [[] for _ in names], "mean": [{"n": 0, "ok": False, "D": 1} for _ in names], "inv_raised": "", "inv": []}
+          "excess": [[] for _ in names], "mean": [{"n": 0, "ok": False, "D": 1} for _ in names], "inv_raised": "", "inv": [],
+          "earlier_changed": False}
     try:
         means = AverageJointDegreeFromJDD.get_average_joint_degrees(jdd)
         tr["mean"] = []
@@ -52,6 +68,11 @@ def run_algebra(case):
         back = JointDegreeFromExcess.get_joint_degree_distribution(qd, names)
         Wnz = sum(w for k, w in P.items() if w > 0 and any(k))
         tr["inv"] = _drows(back, Wnz)
+        # the dictionaries returned for the PREVIOUS case still say what they said then
+        if "objs" in _HELD:
+            tr["earlier_changed"] = _dig(_HELD["objs"]) != _HELD["dig"]
+        _HELD["objs"] = [qks, qd, back]
+        _HELD["dig"] = _dig(_HELD["objs"])
     except Exception as ex:
         tr["inv_raised"] = "%s: %s" % (type(ex).__name__, str(ex)[:70])
     return tr
@@ -104,8 +125,12 @@ def run_network(case):
     return tr
 
 
-def execute(case):
+def _execute(case):
     return {"algebra": run_algebra, "rowsum": run_rowsum, "network": run_network}[case["kind"]](case)
+
+
+from ..history import with_prior
+execute = with_prior(_execute, _HELD, lambda tr: tr.get("earlier_changed"))
 
 
 def cases(chk):
@@ -143,7 +168,7 @@ def cases(chk):
         sizes = rng.choice([[2], [2, 3], [2, 3, 4], [3]])
         es, jd, tops = R.clean_network(rng, rng.choice([6, 10, 20, 40]), sizes, rng.choice([0.6, 1.0, 1.4]))
         if es:
-            cs.append({"kind": "network", "edges": es, "jd": jd, "tops": tops, "extractions_before": i % 3, "labels": ["id", "shift", "big"][(i // 3) % 3]})
+            cs.append({"kind": "network", "edges": es, "jd": jd, "tops": tops, "extractions_before": i % 3, "labels": ["id", "shift", "big"][(i // 3) % 3], "jd_as_list": i % 4 == 2})
     return cs
 
 
